@@ -74,6 +74,10 @@ def deterministicRate (cfg : Int) : Nat := if cfg ≤ 1 then 1 else uintOfInt cf
 `rate = uint(dynsampler.GetSampleRateMulti(..)); if rate < 1 { rate = 1 }`. -/
 def dynRate (r : Int) : Nat := if uintOfInt r < 1 then 1 else uintOfInt r
 
+/-- `DynamicSampler.GetSampleRate` as a whole: after the floor it draws `rand.Intn(int(rate))`,
+which panics when `int(rate) ≤ 0` (a dynsampler answering a negative number). -/
+def dynOutcome (r : Int) : Option Nat := if toInt64 (dynRate r) ≤ 0 then none else some (dynRate r)
+
 /-- rules sampler, rule without downstream sampler: `rate = uint(rule.SampleRate)`,
 `keep = !rule.Drop && rule.SampleRate > 0 && rand.Intn(rule.SampleRate) == 0` (`draw` is the
 random draw, a parameter). -/
